@@ -72,6 +72,7 @@ def run(ctx: Context) -> None:
     ctx.rule(c04.r2_tables, pl)
     ctx.rule(c04.r5_picklable)
     ctx.rule(c04.r9_suffix_slices, pl)
+    ctx.rule(c04.r7_restore_order, pl)
     ctx.rule(c14.r4_checkpoint_on_every_exit, v, "R4")
 
 
